@@ -161,6 +161,8 @@ type Frame struct {
 	immCells     []immCell         // assigned-once local variable cells (top-level frame)
 	// calleeBindings: captured-variable cells of the closure whose contract is being applied
 	calleeBindings []string
+	// havocCallee: the statically known callee whose call is being havocked (nil otherwise)
+	havocCallee *ssa.Function
 	fromDefer      bool // this (inlined) activation was started by RunDefers
 	runningDefers  bool // RunDefers of this activation is being executed
 	// outerVars: variables of enclosing functions that this (separately verified) closure does
@@ -1189,6 +1191,12 @@ func (f *Frame) havocState(st *State, w *WriteSet, why string) *State {
 		// code called while holding it (a non-reentrant mutex): the guarded fields of the owner
 		// and the contents of guarded maps keep their values
 		for _, hl := range st.held {
+			if why == "call" && f.havocCallee != nil && f.eng.mayWriteGuarded(f.havocCallee, hl.cells, map[*ssa.Function]bool{}) {
+				// a helper that is called with the lock held and writes the guarded state itself
+				// (its contract, if any, says what it does to it): nothing is kept for it
+				f.eng.note("guarded state is kept across calls made while holding the lock, except calls of repository functions that themselves store to fields or maps of the guarded types or whose contract requires held(...) (type-based scan of the static call graph)")
+				continue
+			}
 			for _, cell := range hl.cells {
 				for _, lf := range leaves(cell.typ) {
 					if _, ok := lf.typ.Underlying().(*types.Array); ok {
@@ -1230,6 +1238,68 @@ func (f *Frame) havocState(st *State, w *WriteSet, why string) *State {
 		}
 	}
 	return out
+}
+
+// mayWriteGuarded: does fn, or a repository function it calls statically (closures it creates
+// included), store to a field or map whose type is the type of one of the guarded cells, or carry a
+// contract that requires a held lock? Type-based and therefore conservative.
+func (e *Engine) mayWriteGuarded(fn *ssa.Function, cells []immCell, seen map[*ssa.Function]bool) bool {
+	if fn == nil || seen[fn] {
+		return false
+	}
+	seen[fn] = true
+	if fc := e.contractFor(fn); fc != nil {
+		for _, r := range fc.Requires {
+			if strings.Contains(r.Text, "held(") {
+				return true
+			}
+		}
+	}
+	if fn.Blocks == nil || fn.Pkg == nil || !strings.HasPrefix(fn.Pkg.Pkg.Path(), strings.TrimSuffix(modPrefix, "/")) {
+		return false
+	}
+	isCellType := func(t types.Type) bool {
+		for _, c := range cells {
+			if types.Identical(t, c.typ) {
+				return true
+			}
+		}
+		return false
+	}
+	for _, b := range fn.Blocks {
+		for _, in := range b.Instrs {
+			switch x := in.(type) {
+			case *ssa.Store:
+				if _, ok := x.Addr.(*ssa.FieldAddr); ok && isCellType(x.Val.Type()) {
+					return true
+				}
+			case *ssa.MapUpdate:
+				if isCellType(x.Map.Type()) {
+					return true
+				}
+			case *ssa.MakeClosure:
+				if cf, ok := x.Fn.(*ssa.Function); ok && e.mayWriteGuarded(cf, cells, seen) {
+					return true
+				}
+			case *ssa.Call:
+				cc := x.Common()
+				if bi, ok := cc.Value.(*ssa.Builtin); ok {
+					if (bi.Name() == "delete" || bi.Name() == "clear") && isCellType(cc.Args[0].Type()) {
+						return true
+					}
+					continue
+				}
+				if cal := cc.StaticCallee(); cal != nil && e.mayWriteGuarded(cal, cells, seen) {
+					return true
+				}
+			case *ssa.Defer:
+				if cal := x.Common().StaticCallee(); cal != nil && e.mayWriteGuarded(cal, cells, seen) {
+					return true
+				}
+			}
+		}
+	}
+	return false
 }
 
 // immCell: the address and type of an assigned-once local variable cell.
